@@ -673,5 +673,6 @@ def check(tier):
             ck.add_mutant(name, m, w, "harness.C19", "splitter_job", dict(cases=[("general", ("binomial", "perfect"), 2, None)]), unwind=5)
         else:
             ck.add_mutant(name, m, w, "harness.C19", "single_cell_step", dict(cases=[(2, 1, 1, 1, 1, 2, 0), (2, 1, 1, 1, 1, 2, 1)]))
+    ck.validate = ['lineage_cell', 'splitters']
     ck.run()
     return ck.finish(replay=REPLAY)
